@@ -421,7 +421,8 @@ def load_findings():
 # ---------------------------------------------------------------------------
 
 QUICK_UNIT_MAX_S = 150      # an obligation measured slower than this (on a loaded 16-core box) is thorough-only
-QUICK_BUDGET_CPU_S = 3000   # summed measured time of a property's quick tier (~5 min wall at -j 12)
+QUICK_BUDGET_CPU_S = 2400   # summed measured time of a property's quick tier (~4 min wall at -j 12)
+QUICK_MAX_UNITS = 48        # kani-compiler generates code for the harnesses one after the other (~4 s each)
 
 
 def measured_times():
@@ -449,7 +450,7 @@ def select_units(cat, prop, tier, only=None):
     rest.sort(key=lambda x: (x[0], x[1]))
     spent = 0.0
     for pr, t, u in rest:
-        if spent + t > QUICK_BUDGET_CPU_S and pr != 0:
+        if (spent + t > QUICK_BUDGET_CPU_S or len(keep) >= QUICK_MAX_UNITS) and pr != 0:
             continue
         keep.append(u)
         spent += t
